@@ -411,6 +411,11 @@ func (c *Ctx) GuardOpt(rule string, fn *ssa.Function, eff Effect, opt GuardOpts,
 			}
 		}
 		construct := fname + "#" + eff.String() + "⇐" + gs
+		if len(bad) > 0 && strictSplitHolds(fn, g, effs) {
+			// `x > y` written as `if x != y { if x < y { … } … }`: the strict fact is the conjunction of ≥ and ≠
+			bad = nil
+			descr = append(descr, "strict comparison established as ≥ and ≠ on every path")
+		}
 		if len(bad) == 0 {
 			c.add("guard", rule, construct, Held, c.P.InstrPos(effs[0]),
 				fmt.Sprintf("%d effect site(s); %d guard edge(s) removed [%s]; no unguarded path from entry%s", len(effs), len(removed), strings.Join(dedup(descr), "; "), opt.Note))
